@@ -165,7 +165,15 @@ def once_only(rec, F):
             rec.inst(R, "%s:Compiled-arm" % hn, ok=ok, loc=h.loc)
             if not ok:
                 rec.finding(R, "F4.once/%s/compiled-arm" % hn, "%s Compiled arm: importer must sleep exactly once and create the child fiber from the compiled function with Some(self.fiber) as parent" % hn, loc=h.loc, fn=h.path)
-        # retry reads the module through the package tree or cache and pushes exactly one value on the Loaded arm: covered by F1.e
+        # module_cache is a shortcut keyed by the fully resolved path: it may only ever hold, under `resolved`,
+        # the module the package tree returned as Loaded for this very import
+        for bi, t in h.calls():
+            if lastseg(t["f"]) == "insert" and t["args"] and sem.desc_mentions_field(sem.desc_operand(h, t["args"][0]), "module_cache"):
+                kd, vd = str(sem.desc_operand(h, t["args"][1])), str(sem.desc_operand(h, t["args"][2]))
+                ok = "'Loaded'" in vd and "full_import_path" in kd
+                rec.inst(R, "%s: module_cache[resolved] := Loaded(module)" % hn, ok=ok, loc=loc_of(t["sp"]))
+                if not ok:
+                    rec.finding(R, "F4.once/%s/cache-value" % hn, "%s stores into module_cache something other than (full_import_path, the module returned as Loaded): a later import of that path would be answered with the wrong module, without running the right one" % hn, loc=loc_of(t["sp"]), fn=h.path)
 
 
 # ---------------------------------------------------------------------------
